@@ -1,5 +1,8 @@
 use log::{debug, info};
+#[cfg(not(cached_verif))]
 use rand::Rng;
+#[cfg(cached_verif)]
+use crate::verif_rt::sync::rand::{self, Rng};
 use crate::cache::types::{FrequencyEstimate, KeyHash, TotalCounters};
 
 const BINARY_ONE: u64 = 0x01;
